@@ -16,13 +16,14 @@ const (
 	kSetFF         // data[i] = 0xFF (skipped where it already is)
 	kDER           // DER-aware edits at node i
 	kRelen         // a primitive element re-encoded at another content length (position = (element, length) pair)
+	kOID           // OBJECT IDENTIFIER elements: every value of the last two bytes, replacement by other known OIDs
 	kTiny          // empty and 1-3 byte inputs (position = index into the fixed list)
 	kCross         // every other artefact of the world, unmodified (type confusion)
 	kSplice        // seeded random splices
 	nKinds
 )
 
-var kindNames = [nKinds]string{"truncate", "xor01", "xor80", "set00", "setff", "der-edit", "der-relength", "tiny", "cross-type", "random-splice"}
+var kindNames = [nKinds]string{"truncate", "xor01", "xor80", "set00", "setff", "der-edit", "der-relength", "der-oid", "tiny", "cross-type", "random-splice"}
 
 // tinyInputs is the fixed list of empty and 1-3 byte inputs.
 var tinyInputs = func() [][]byte {
@@ -60,6 +61,14 @@ func positions(kind int, a *artefact, w *world) int {
 			a.relen = a.tree.relenPositions(allSubstitutions)
 		}
 		return len(a.relen)
+	case kOID:
+		if a.tree == nil {
+			return 0
+		}
+		if a.oidp == nil {
+			a.oidp = a.tree.oidPositions(w.oids, allSubstitutions)
+		}
+		return len(a.oidp)
 	case kTiny:
 		return len(tinyInputs) + 1 // + nil
 	case kCross:
@@ -122,6 +131,16 @@ func mutantsAt(kind int, a *artefact, w *world, i int, out []mutant) []mutant {
 			m = a.wrap(m)
 		}
 		return append(out, mutant{b: m, what: fmt.Sprintf("der-relength/%d->%d", len(a.tree.flat[p.node].body), p.l)})
+	case kOID:
+		p := a.oidp[i]
+		m := a.tree.oidMutant(p, w.oids)
+		if m == nil {
+			return out
+		}
+		if a.wrap != nil {
+			m = a.wrap(m)
+		}
+		return append(out, mutant{b: m, what: []string{"der-oid/last-byte", "der-oid/second-to-last-byte", "der-oid/replace"}[p.mode]})
 	case kTiny:
 		if i == len(tinyInputs) {
 			return append(out, mutant{isNil: true, what: "tiny"})
